@@ -67,9 +67,11 @@ structure Family (Θ Y α : Type) where
   aux : Θ → Y → α
   mstep : (N : Nat) → (Fin N → α) → (Fin N → α) → (Fin N → Y) → Θ
 
-/-- how `estimate_mixture_weight` normalises: `np.mean` (saliency `None`) or
-`_unit_norm(sum, ord=1, axis=-2, eps=1e-10, eps_style='where')` (saliency given) -/
-inductive WeightRule | mean | unitNorm
+/-- how the weight update normalises: `np.mean` (`estimate_mixture_weight`, saliency `None`),
+`_unit_norm(sum, ord=1, axis=-2, eps=1e-10, eps_style='where')` (`estimate_mixture_weight`, saliency given), or
+`sum / np.maximum(np.sum(sum, axis=-2), tiny)` (the inline update of `GCACGMMTrainer._m_step` / `VMFCACGMMTrainer._m_step`;
+the floor is passed as `eps`) -/
+inductive WeightRule | mean | unitNorm | tinyFloor
 deriving DecidableEq, Repr
 
 /-- weight tying: `uniform = true` is `weight_constant_axis = -2` (weights fixed to `1/K`); otherwise
@@ -110,6 +112,10 @@ def groupWeight {K N G : Nat} (rule : WeightRule) (grp : Fin N → Fin G) (eps :
       let num : Tab K α := tab fun j => groupSum grp g (fun m => γ j m * s m)
       let nrm : α := vsum fun j => absα (rd num j)
       let den : α := if 0 < nrm then nrm else if nrm < 0 then nrm else eps
+      fun k => rd num k / den
+  | .tinyFloor =>
+      let num : Tab K α := tab fun j => groupSum grp g (fun m => γ j m * s m)
+      let den : α := max (vsum fun j => rd num j) eps
       fun k => rd num k / den
 
 /-- the weights broadcast back to every observation -/
